@@ -24,7 +24,7 @@ PROP = Prop(
         "solvers; arc_grid: the same check on a regular lattice over (e, start anomaly, transfer angle) with seed-dependent offsets "
         "(8x12x60 quick, 16x24x180 thorough), other elements random. radar_inversion: site, target above the horizon at az/el/range, whole-second epoch incl. second != 0. lambert_iod: "
         "near-circular orbit (e <= 0.01), two noise-free radar observations 5%..39.5% of a period apart from sites under the target, "
-        "stored the way the engine stores them. Non-trivial = transfer angle > 180 deg, e > 0.3, or separation > 30% of the period; "
+        "stored the way the engine stores them, plus 0-3 earlier stored observations of the same target inside the window. Non-trivial = transfer angle > 180 deg, e > 0.3, or separation > 30% of the period; "
         "distinct by rounded inputs."
     ),
     assumptions=[
@@ -182,10 +182,12 @@ def radar_inversion(c, rec):
 # ------------------------------------------------------------------------------------------------
 def _iod_cases():
     return st.builds(
-        lambda t, el, frac, method: {"t": iso(t), **el, "frac": frac, "method": method},
+        lambda t, el, frac, method, extra: {"t": iso(t), **el, "frac": frac, "method": method, "extra": extra},
         eop_instants(margin_days=3), so.elements(e_cap=0.01, min_perigee_alt=300.0, a_min=6800.0, a_max=45000.0),
         st.one_of(st.floats(0.05, 0.395), st.sampled_from([0.1, 0.25, 0.34, 0.36, 0.38, 0.395])),
-        st.sampled_from(["lambert_universal", "lambert_battin"]))
+        st.sampled_from(["lambert_universal", "lambert_battin"]),
+        # earlier stored observations of the same target inside the window (seconds before the last stored one), any insertion order
+        st.lists(st.integers(30, 570), max_size=3, unique=True))
 
 
 @PROP.clause("lambert_iod", strategy=_iod_cases, quick=300, thorough=8000, shards=8)
@@ -233,7 +235,15 @@ def lambert_iod(c, rec):
 
     ob1 = observe(s1, t1, 5001)
     ob2 = observe(s2, t2, 5002)
-    db.insertData(ob1)
+    stored = [ob1]
+    for back in c.get("extra", []):
+        te = t1 - timedelta(seconds=back)
+        db.insertData(Epoch(julian_date=datetimeToJulianDate(te), timestampISO=te.isoformat(timespec="microseconds")))
+        stored.append(observe(kepler.propagate(s1, -float(back)), te, 5001))
+    rec.label(f"stored_observations:{len(stored)}")
+    if len(stored) > 1 and sum(c["extra"]) % 2:
+        stored.reverse()  # insertion order is not chronological order
+    db.insertData(*stored)
     iod = LambertIOD.fromConfig(InitialOrbitDeterminationConfig(name=c["method"], minimum_observation_spacing=60), 4001, jd0)
     sol = iod.determineNewEstimateState([ob2], ScenarioTime(0.0), ScenarioTime(600.0 + dt))
     if not sol.convergence:
